@@ -15,7 +15,9 @@ SPEC = Spec(
          "every pipelines.Config value is first validated with xconfmap.Validate (as otelcol does; dumped before/after: validation must be "
          "read-only) and the very same value is then built; processor ids include k10/k11 and lists of up to 4 in random order so the "
          "configured order differs from the lexical one; ~6% of the cases fail validation (no receiver / no exporter / duplicated "
-         "processor) and are not built; one tagged payload injected at every receiver instance. thorough adds the exhaustive scope <=3 pipelines x 2 signals x "
+         "processor) and are not built; 5% have one receiver/exporter factory fail inside buildComponents (Build must return the error; model "
+         "buildWith); in 20% of the built cases one to three exporters/processors return an error from Consume (after recording/forwarding) and "
+         "the route multisets must be unchanged; one tagged payload injected at every receiver instance. thorough adds the exhaustive scope <=3 pipelines x 2 signals x "
          "2 connectors (266304 configurations). non-trivial = uses a connector or shares a receiver/exporter between pipelines; "
          "distinct = distinct op sequences (sha1 of the op lines).",
     trusted_base=[
